@@ -687,6 +687,33 @@ theorem C17_env_only_layer (E : Env) (fuel : Nat) (single : Bool) (q : P) (k : S
     lookup k (layerEO E (fuel + 1) single q) = lookupE (envName E.root (q.info.path.map codes) (codes k)) E.vals := by
   rw [layerEO_own E fuel single q k hk hko hcfg hleaf, C17_env_names]
 
+/-! ### open finding C17-env-named-inner-choice-order (appeared with repair F50) -/
+
+def updW : P := .node (mkInfo ["items", "update"] [("alpha", .int 12)] ["alpha"] [] []) .none []
+def fitW : P := .node (mkInfo ["items", "fit"] [("beta", .int 6)] ["beta"] [] []) .none []
+def itemsW : P :=
+  .node { (mkInfo ["items"] [("cfg", .none), ("cmd", .none)] [] [[("update", .sec [("alpha", .int 337)])]] []) with cfgKey := some "cfg" }
+    (some ⟨"cmd", true⟩) [("update", updW), ("fit", fitW)]
+def rootW : P := .node (mkInfo [] [("subcommand", .none)] [] [] []) (some ⟨"subcommand", true⟩) [("items", itemsW)]
+def envW (named : Bool) : Env :=
+  ⟨codes "app", if named then [(codes "APP_SUBCOMMAND", .str "items")] else [],
+   [(codes "APP_ITEMS__CFG", [("fit", .sec [("beta", .int 813)])])]⟩
+
+/-- `items` has a default config file with a section for `update`; its config variable gives a section for `fit`; nobody names
+    the inner subcommand.  With `items` NAMED BY ITS VARIABLE the environment-only layer of `items` (`layerEO`) is handled on its
+    own: the single-subcommand rule turns the lone `fit` section into the NAME cmd = fit in the root's environment layer, which
+    then beats the name that `get_defaults` of `items` derives from the default config file: `fit` is selected.  With `items` named
+    in the given configuration (command line, config) and the same environment, `update` is selected: the choice depends on HOW the
+    outer subcommand was named.  The model agrees with the code on both (corpus cases of the same names) -/
+theorem C17_env_named_inner_choice_counterexample :
+    lookup "cmd" (secOf (lookup "items" (layerC (envW true) 6 true [] .env rootW))) = some (.str "fit") ∧
+    lookup "cmd" (layerEO (envW true) 5 true itemsW) = some (.str "fit") ∧
+    (match finalParse (layC (envW false) 6 true rootW) true .env rootW
+        (merge [("subcommand", .str "items")] (layerC (envW false) 6 true [] .env rootW)) with
+     | .ok c => lookup "cmd" (secOf (lookup "items" c))
+     | .error _ => .none) = some (.str "update") := by
+  refine ⟨by rfl, by rfl, by rfl⟩
+
 /-! ### non-vacuity of the session-2 statements -/
 
 def srcNamed : Cfg := [("subcommand", .str "test"), ("run", .sec [("gamma", .int 30)]), ("fit", .sec [("alpha", .int 10)])]
